@@ -16,7 +16,8 @@ CONFIG = {
              'owner raised} called after the owner function finished (from the root, from inside another function, and '
              'for the root builder after build() returned): must raise RuntimeError, call no user function, cause no '
              'file-system event and claim nothing (a later legitimate build_file/subbuild of the same key succeeds), '
-             'build result/tree equal the model; (b) a straggler thread calls a method on the owner\'s builder while '
+             'build result/tree equal the model; (a\') the same late calls after the owner (root, subbuild, build_file) left with SystemExit / '
+             'KeyboardInterrupt / GeneratorExit / a BaseException subclass that its caller caught (fence only); (b) a straggler thread calls a method on the owner\'s builder while '
              'the owner returns, under the baton scheduler at source-line granularity (ALL single pre-emptions, '
              'sampled pairs, random/PCT) and free-running: with a logical clock, a call invoked after the enclosing subbuild/build_file call returned must '
              'raise RuntimeError; a call that completed normally must be part of the record (mutating the path only '
@@ -25,7 +26,7 @@ CONFIG = {
              'half of (b) the owner makes the straggler\'s very call before forking, so late calls REPEAT observations the '
              'same instance already recorded (a memo of recorded observations must not bypass the fence); evaluations = late calls + schedules judged; '
              'distinct_nontrivial = distinct (owner kind, method, outcome, recorded?) x switch sequences'),
-    'gates': ['primed_straggler_runs', 'complex_stragglers', 'complex_straggler_after_close', 'late_calls', 'root_late_calls', 'straggler_schedules', 'straggler_ok_recorded',
+    'gates': ['base_exception_late_calls', 'primed_straggler_runs', 'complex_stragglers', 'complex_straggler_after_close', 'late_calls', 'root_late_calls', 'straggler_schedules', 'straggler_ok_recorded',
               'straggler_rejected', 'straggler_single_layers', 'next_build_probes'],
 }
 
@@ -120,6 +121,81 @@ def run_sequential(sh, rng):
                         w.ext_write('in0', b'changed input')
     if len(sh.samples) < 1:
         sh.sample({'program': seq_program(False, False), 'note': 'sequential matrix (a)'})
+
+
+# ------------------------------------------------------------------ (a') owner exits with a BaseException
+class _BaseBoom(BaseException):
+    pass
+
+
+def run_base_exception_cases(sh):
+    """the owner function leaves with an exception that is not an Exception (SystemExit, KeyboardInterrupt,
+    GeneratorExit, a BaseException subclass) and its caller catches it: the builder that was passed to it
+    is fenced all the same.  Only the fence is judged here (no model: what else the library does with
+    such exits is not the subject of C17)."""
+    from ..env import FileBuilder
+    for owner in ('bf', 'sb', 'root'):
+        for exc_cls in (SystemExit, KeyboardInterrupt, GeneratorExit, _BaseBoom):
+            with Scratch('e') as sc:
+                sb = sc.sb
+                probe = os.path.join(sb, 'probe')
+                env.write_file(probe, b'probe')
+                stash = {}
+
+                def fn(b, *a):
+                    stash['b'] = b
+                    if owner == 'bf':
+                        env.write_file(a[0], b'out')
+                    b.is_file(probe)
+                    f = b.read_binary(probe)
+                    f.close()
+                    raise exc_cls()
+
+                def root(b):
+                    if owner == 'root':
+                        return fn(b)
+                    try:
+                        if owner == 'bf':
+                            b.build_file(os.path.join(sb, 'o', 'x'), 'F', fn)
+                        else:
+                            b.subbuild('S', fn)
+                    except BaseException:   # noqa: the caller deliberately survives the exit
+                        pass
+                    return late_calls('inside-build')
+
+                def late_calls(when):
+                    bad = []
+
+                    class Ctx:
+                        @staticmethod
+                        def ap(r):
+                            return os.path.join(sb, r) if r else sb
+                    for m in METHODS:
+                        invoked = []
+                        path = 'probe' if 'build_file' not in m else 'late/%s_%s' % (when, m[:12])
+                        try:
+                            call_method(Ctx, stash['b'], m, path, invoked)
+                            out = 'ok'
+                        except RuntimeError:
+                            out = 'RuntimeError'
+                        except BaseException as e:  # noqa
+                            out = e.__class__.__name__
+                        sh.count('base_exception_late_calls')
+                        sh.evaluations += 1
+                        if out != 'RuntimeError' or invoked:
+                            bad.append((m, out, bool(invoked)))
+                    if bad:
+                        sh.violation('builder_usable_after_base_exception|%s|%s' % (owner, bad[0][0]),
+                                     {'owner': owner, 'exception': exc_cls.__name__, 'when': when, 'calls': bad[:5]},
+                                     {'kind': 'c17-base-exception', 'owner': owner, 'exception': exc_cls.__name__})
+                    return None
+                try:
+                    FileBuilder.build(os.path.join(sb, 'cache.gz'), 'n', root)
+                except BaseException:   # noqa
+                    pass
+                if 'b' in stash:
+                    late_calls('after-build')
+                sh.nt(('base-exc', owner, exc_cls.__name__))
 
 
 # ------------------------------------------------------------------ (b) stragglers
@@ -303,6 +379,8 @@ def run_shard(sh):
     sched.install()
     if sh.idx % 4 == 0:
         run_sequential(sh, rng)
+    if sh.idx % 4 == 1:
+        run_base_exception_cases(sh)
     combos = [(o, m) for o in ('sb', 'bf', 'sb-raises', 'root') for m in QUERY_METHODS] + \
         [(o + '+p', m) for o in ('sb', 'bf', 'sb-raises', 'root') for m in QUERY_METHODS] + \
         [(o, m) for o in ('root-raises', 'root-commits', 'sb', 'bf') for m in ('build_file', 'subbuild', 'is_file')] * 2
